@@ -294,8 +294,15 @@ def handle (ds : DState) (op : String) (args impl : List String) : Option (DStat
     let ms := ds.smodel
     -- a session the model is not following: only fopen can start a new one
     let (ms1, pred) := StoreModel.step ms op args impl
+    -- the guard of `apply_idUniq` / `run_idUniq` (Proofs/IdUniq.lean), checked on every history of the tie — and C12 itself: the id
+    -- the library gave a new entity has never been written into this file, not even onto an entity that is deleted by now (the model
+    -- store never forgets an object)
+    let staleId : Bool := op == "mk" && ms.lost.isNone && (match impl with
+      | ["ok", id, _] => (List.range ms.store.objs.length).any fun o => ms.store.attr? o "entity_id" == some id
+      | _ => false)
     match out with
     | .ok tag =>
+      if staleId then some ({ ds1 with smodel := { ms1 with lost := some "diverged" } }, .rel tag "new_id_was_never_used_in_this_file") else
       if ms1.lost.isSome && op != "fopen" then some ({ ds1 with smodel := ms1 }, .ok tag) else
       match pred with
       | .unsupported why => some ({ ds1 with smodel := { ms1 with lost := some why } }, .ok (tag ++ "+untracked"))
